@@ -477,12 +477,12 @@ Definition mon_C13 : monitor := fun L s st s' =>
    the amounts the pair REPORTED and the reserves and commission rate it DESCRIBED just before *)
 Definition mon_C06 : monitor := fun L s st s' =>
   if negb (hs_ok st) then (fail_unchanged st, false) else
-  (let chk (p : addr) (offer : asset) (amount : N) :=
+  (let chk (p : addr) (offer : asset) (amount donated : N) :=
      match hs_extras st with
      | [a; n; sp; m] =>
          let a0 := s_pair_asset L s p 0 in let a1 := s_pair_asset L s p 1 in
          let ask := if asset_eqb offer a0 then a1 else a0 in
-         let x := s_asset_bal L s offer p in let y := s_asset_bal L s ask p in
+         let x := s_asset_bal L s offer p in let y := s_asset_bal L s ask p + donated in
          let c := s_pair L s p 10 in
          (a =? amount) && (c <=? D) &&
          (n * D * (x + a) <? y * a * (D - c) + D * (x + a)) &&
@@ -491,9 +491,19 @@ Definition mon_C06 : monitor := fun L s st s' =>
      | _ => true
      end in
    match hs_op st with
-   | OSwap p _ [(d, k)] (ANative d') amount _ _ _ => if (d =? d') && (k =? amount) then chk p (ANative d') amount else true
+   | OSwap p _ [(d, k)] (ANative d') amount _ _ _ => if (d =? d') && (k =? amount) then chk p (ANative d') amount 0 else true
+   (* two coins attached: the offered one, exactly, and one of the pair's other (native) asset, which is in the pool when the
+      swap is priced *)
+   | OSwap p _ [(d1, k1); (d2, k2)] (ANative d') amount _ _ _ =>
+       if mem_addr p (existing_pairs L s) then
+         let a0 := s_pair_asset L s p 0 in let a1 := s_pair_asset L s p 1 in
+         let ask := if asset_eqb (ANative d') a0 then a1 else a0 in
+         if (d1 =? d') && (k1 =? amount) && asset_eqb ask (ANative d2) then chk p (ANative d') amount k2
+         else if (d2 =? d') && (k2 =? amount) && asset_eqb ask (ANative d1) then chk p (ANative d') amount k1
+         else true
+       else true
    | OSend ta _ p k (HSwap (AToken tb) amount _ _ _) =>
-       if mem_addr p (existing_pairs L s) && (ta =? tb) && (k =? amount) then chk p (AToken ta) amount else true
+       if mem_addr p (existing_pairs L s) && (ta =? tb) && (k =? amount) then chk p (AToken ta) amount 0 else true
    | _ => true
    end, false).
 
